@@ -177,6 +177,17 @@ Theorem C08_compact_as_iff :
 Proof. exact compact_as_iff. Qed.
 Print Assumptions C08_compact_as_iff.
 
+(** ... and on the generated item: the CompactAs clause of [C08_exact] holds exactly for a
+    struct item with one field of primitive type u8 / u16 / u32 / u64 / u128 *)
+Theorem C08_item_compact_as_iff :
+  forall ir,
+    item_compactable ir = true <->
+    exists c f, ti_kind ir = KStruct c /\
+                (ci_kind c = CUnnamed [f] \/ exists n, ci_kind c = CNamed [(n, f)]) /\
+                exists p, fi_path f = TPrim p /\ In p [PU8; PU16; PU32; PU64; PU128].
+Proof. exact item_compactable_iff. Qed.
+Print Assumptions C08_item_compact_as_iff.
+
 (** the negative cases: no field, two or more fields, a field that is not a primitive
     (compact, parameter, path, sequence, array, tuple, bit sequence), bool / char / str /
     signed / 256-bit primitives, enums *)
